@@ -4,11 +4,12 @@
 From AwVerif Require Import Base.Prelude Model.Commit Model.CommitApi
   Proofs.CommitProofs Proofs.CommitAge Proofs.CommitApiAge.
 
-(* An event write made through a Bucket object (insert of one event or of a list without
-   ids, replace, replace_last, delete), whether or not the Bucket object has to be created
-   first, issued more than 10 s after the last commit, returns with nothing pending. *)
+(* An event write made through a Bucket object (insert of one event or of ANY list of events,
+   with or without ids; replace, replace_last, delete), whether or not the Bucket object has
+   to be created first, issued more than 10 s after the last commit, returns with nothing
+   pending. *)
 Theorem C18_api_age_flush : forall lazy s cached o tro t,
-  single_block_op o -> map fst tro = api_expand (ViaBucket cached o) ->
+  event_write_op o -> map fst tro = api_expand (ViaBucket cached o) ->
   mono_from t tro -> t - last_commit s > MAX_AGE ->
   pending (run lazy s tro) = [].
 Proof. exact api_age_flush. Qed.
@@ -44,5 +45,6 @@ Example C18_api_wrapper_that_reads_first_breaks_it :
   pending (st (replace_by_delete_insert true 7 8)) = [8] /\
   pending (st (insert_in_two_pieces true [1; 2] [3; 4])) = [3; 4] /\
   pending (st (api_expand (ViaBucket true (Replace 7)))) = [] /\
-  pending (st (api_expand (ViaBucket true (InsertMany [] [1; 2; 3; 4])))) = [].
+  pending (st (api_expand (ViaBucket true (InsertMany [] [1; 2; 3; 4])))) = [] /\
+  pending (st (api_expand (ViaBucket false (InsertMany [5; 6] [1; 2])))) = [].
 Proof. vm_compute. repeat split; reflexivity. Qed.
